@@ -136,6 +136,9 @@ func (w *World) execQuery(r *Replica, s *Side, point string) {
 		}
 		return
 	}
+	if eff < 1 {
+		return // nothing is committed yet
+	}
 	if inBlock(point) {
 		w.Probes.Hit("query.mid-block")
 	}
@@ -147,7 +150,9 @@ func (w *World) execQuery(r *Replica, s *Side, point string) {
 
 func isKnownPath(p string) bool {
 	switch p {
-	case "account", "stakes", "stakes/total_power", "stakes/voting_power", "delegatee", "reward", "proposal", "gov_params":
+	case "account", "stakes", "stakes/total_power", "delegatee", "reward", "proposal", "gov_params":
+		// stakes/voting_power is not in the statement's list (it is computed with the current
+		// governance parameters, so its answer for a past height can change: observation S12)
 		return true
 	}
 	return false
@@ -161,7 +166,8 @@ func (w *World) judgeQuery(r *Replica, path string, data []byte, h int64, res *a
 	// stability: the same question about the same height always has the same answer
 	if isKnownPath(path) && h >= 1 {
 		key := fmt.Sprintf("q|%s|%x|%d", path, data, h)
-		ans := append([]byte{byte(res.Code)}, res.Value...)
+		// compared in canonical form: the node's JSON encoder emits map entries in arbitrary order
+		ans := append([]byte{byte(res.Code)}, canonicalJSON(res.Value)...)
 		if prev, ok := w.QueryMemo[key]; ok {
 			if !bytes.Equal(prev, ans) {
 				w.violate("query.unstable", []string{"C19"}, w.curH, "replica %s at %s: %s(%x) at height %d answered differently than before", r.Name, point, path, data, h)
@@ -406,6 +412,13 @@ func (w *World) openPendingForks(h int64) {
 		if err != nil {
 			w.Probes.Hit("crashrecovery.fail." + pc)
 			detail := err.Error()
+			if strings.Contains(detail, "would result in empty set") {
+				// the workload removed the last validator in the interrupted block (outside the statement)
+				w.Probes.Hit("valset.empty-attempt")
+				r.Close()
+				fr.R = nil
+				continue
+			}
 			shape := "crash-mid-commit"
 			if !strings.HasPrefix(pc, "cw(") {
 				shape = "crash-at-boundary"
@@ -483,4 +496,17 @@ func removeAll(p string) error {
 		return nil
 	}
 	return removeTree(filepath.Clean(p))
+}
+
+
+func canonicalJSON(b []byte) []byte {
+	var v interface{}
+	if len(b) == 0 || json.Unmarshal(b, &v) != nil {
+		return b
+	}
+	c, err := json.Marshal(v)
+	if err != nil {
+		return b
+	}
+	return c
 }
